@@ -325,6 +325,12 @@ def rule_roles_reach_the_checks(ctx):
     c11.rule_enforcement(sub)
     c11.rule_ensure_templates(sub)
     ctx.obls.extend(sub.obls)
+    # .. and in strong equivalence both files contribute alike to what every problem assumes: the transition axioms range over the
+    # predicates of the left *and* the right program (C03's transition obligations), so that swapping the files swaps the claims only
+    from . import c03
+    sub = type(ctx)(ctx.prop, ctx.tier, ctx.facts)
+    c03.rule_transition(sub)
+    ctx.obls.extend(sub.obls)
 
 
 RULES = [rule_ext_table, rule_det3, rule_accessors, rule_flow_roles, rule_mirror_shared, rule_roles_reach_the_checks]
